@@ -255,6 +255,25 @@ def rule_bases(ctx, R):
         for bi, t in b.calls():
             if callee_name(t["f"], fb).endswith("RangeInclusive::contains") and org.of_operand(t["args"][1], bi, "t") == ("arg", 2):
                 got[nm] = promoted_range(fb, b, org.of_operand(t["args"][0], bi, "t"))
+    # ... and reject exactly the bases outside it: the error return is taken when `contains` is false
+    for nm in ("to_string_base", "from_string_base"):
+        b = fb.bodies.get(B + nm)
+        if b is None:
+            continue
+        cfg_ = normal_cfg(b)
+        r_ = Roles(b, fb, param_roles=PR(b))
+        e_ = Events(b, fb, roles=r_)
+        inside, outside = [], []
+        for gb, blk in enumerate(b.blocks):
+            tt = blk["term"]
+            if tt["k"] == "switch" and not blk["cleanup"]:
+                for s_ in cfg_.succ[gb]:
+                    lab = e_.generic_edge(gb, tt, s_) or ""
+                    if "RangeInclusive::contains" in lab and "P2" in lab:
+                        (inside if lab.endswith("=1") else outside).append((gb, s_))
+        errs = [bi for bi, blk in enumerate(b.blocks) for st in blk["stmts"] if st["k"] == "assign" and st["r"]["k"] == "agg" and "BaseSizeError" in str(st["r"].get("variant", "")) + str(st["r"].get("adt", "")) + str(st["r"])[:200]]
+        ok = len(inside) == 1 and len(outside) == 1 and bool(errs) and all(not reaches_without(cfg_, [0], eb, cut_edges=outside) for eb in errs) and not any(reaches_without(cfg_, [outside[0][1]], x) for x in [bi for bi, t in b.calls() if callee_name(t["f"], fb).endswith("BigNum::new")])
+        R.check(ok, "bases:reject:%s" % nm, "%s returns the base error exactly for bases outside the range (and does no work for them)" % nm, b.span)
     R.check(got.get("to_string_base") == got.get("from_string_base") and got.get("to_string_base") is not None and got["to_string_base"][1] == 36 and got["to_string_base"][0] in (1, 2), "bases:agree", "writer and reader accept the same base range ending at 36: %s" % got)
 
 
